@@ -637,6 +637,11 @@ func (gen *Generator) GenerateCallBySymbol(sym *SexpSymbol, args []Sexp, orig Se
 	case "defn":
 		return gen.GenerateDefn(args, orig)
 	case "begin":
+		if len(args) == 0 {
+			// an empty begin is an expression too: its value is nil
+			gen.AddInstruction(PushInstr{SexpNull})
+			return nil
+		}
 		return gen.GenerateBegin(args)
 	case "let":
 		return gen.GenerateLet("let", args)
@@ -1512,6 +1517,9 @@ func (gen *Generator) GenerateNewScope(expressions []Sexp) error {
 	oldtail := gen.Tail
 	gen.Tail = false
 	if size == 0 {
+		// an empty scope block is an expression too: its value is nil
+		gen.AddInstruction(PushInstr{SexpNull})
+		gen.Tail = oldtail
 		return nil
 		//return NoExpressionsFound
 	}
